@@ -203,7 +203,8 @@ const PROPS: [&str; 9] = ["C03", "C05", "C07", "C10", "C11", "C12", "C17", "C18"
 // ===========================================================================
 // Calls.
 // pairs of equal byte length and different display width are deliberate
-const INDENTS: [&str; 7] = ["", "  ", "> ", "* ", "\u{3000}-", "    ", "\u{2022} "];
+// ("> > " extends "> ": state kept about one prefix must not survive a change to a related one)
+const INDENTS: [&str; 8] = ["", "  ", "> ", "* ", "\u{3000}-", "    ", "\u{2022} ", "> > "];
 const WIDTHS: [usize; 10] = [0, 1, 2, 3, 5, 8, 13, 20, 40, usize::MAX];
 
 #[derive(Clone, Debug, PartialEq, Eq, PartialOrd, Ord)]
@@ -1279,7 +1280,9 @@ fn gen_steps(rng: &mut Rng, prop: &str, texts: &[String], workers: usize, len: u
             // re-entrancy: caller-supplied code calls the library at its k-th invocation
             call.nested = nested_call(rng, &mut issued);
             if call.nested.is_some() {
-                call.reenter_at = rng.below(5) as i64;
+                // early (while the library first visits what it was given) or late (deep
+                // inside its work, when it has state of its own pending)
+                call.reenter_at = if rng.chance(1, 2) { rng.below(5) as i64 } else { rng.below(90) as i64 };
             }
         }
         last_worker = worker;
@@ -1681,6 +1684,19 @@ fn parallel_pass(prop: &str, seed: u64) -> Result<String, String> {
                 // a favourite way for shared state to dodge small inputs: every other workload is long)
                 // (and a long call overlapping short ones: in every third workload the
                 // sizes are mixed within the workload, one text short, the next long)
+                // every other workload has one plain printable-ASCII text of 48-80 bytes: an
+                // "ASCII-only fast path" next to a general path is the commonest optimisation there is
+                if seed % 2 == 0 && t == 1 {
+                    let plain = ["a", "to", "the", "quick", "brown", "fox", "jumps", "over", "lazy", "dog", "well-known", "x"];
+                    let target = 48 + rng.below(33);
+                    while s.len() < target {
+                        if !s.is_empty() {
+                            s.push(' ');
+                        }
+                        s.push_str(plain[rng.below(plain.len())]);
+                    }
+                    return s;
+                }
                 let n_words = if matches!(prop, "C10" | "C18" | "C19") {
                     8 + rng.below(17)
                 } else if (seed % 3 == 0 && t % 2 == 1) || (seed % 3 != 0 && seed % 2 == 1) {
